@@ -3,10 +3,16 @@
 //!  (a) the property itself (`Spec`: who still refers to what), and
 //!  (b) the Lean model run on the same history (`c11 run …` of rotov-driver).
 //!
+//! Handles may be turned into `impl Fn` closures (`into_func`); scripts compiled
+//! with the `ud` flag make `main`'s result depend on every kind of data the
+//! compiled code refers to (string literals, f-string pieces, list literals,
+//! script constants of String / List type); after every step the heap is
+//! scribbled over so that freed-but-still-referenced bytes change.
+//!
 //! usage: c11 run <seed> <quick|thorough>
 //!        c11 replay '<json {"history": "b:0 rc:0 …"}>'
 //!        c11 worker <random|exh|one|vg> …      (crash-isolated children)
-use roto::{FileTree, NoCtx, Package, Runtime, TypedFunc, Val, library};
+use roto::{FileTree, List, NoCtx, Package, RotoString, Runtime, TypedFunc, Val, library};
 use rotov_harness::driver::Driver;
 use rotov_harness::worker::{Ended, run_batches, run_worker_keep_stdout};
 use rotov_harness::{Prng, Report};
@@ -64,20 +70,54 @@ enum Op {
     Build(u32),
     RegConst(u32),
     RegClos(u32),
-    Compile { r: u32, k: u32, n: u32, uc: bool, uf: bool },
+    Compile { r: u32, k: u32, n: u32, uc: bool, uf: bool, ud: bool },
     Get(u32),
     CloneH(usize),
+    /// `TypedFunc::into_func`: handle i becomes an `impl Fn() -> u32` closure (same position)
+    IntoFunc(usize),
     Call(usize),
     DropH(usize, bool),
     DropP(u32, bool),
     DropR(u32, bool),
 }
 
+// ---- data the compiled code refers to (flag `ud`)
+
+/// checksum of a string's bytes (position-sensitive), what the host function `ssum` computes
+fn ssum_of(s: &str) -> u32 {
+    s.bytes().enumerate().fold(7u32, |a, (i, b)| a.wrapping_mul(31).wrapping_add(b as u32 ^ (i as u32 & 0xff))) % 100_000
+}
+fn lsum_of(l: &[u32]) -> u32 {
+    l.iter().enumerate().fold(3u32, |a, (i, x)| a.wrapping_mul(17).wrapping_add(*x ^ i as u32)) % 100_000
+}
+fn lit_plain(k: u32) -> String { format!("literal of version {k}: 0123456789 abcdefghijklmnopqrstuvwxyz ABCDEFGHIJKLMNOPQRSTUVWXYZ") }
+fn lit_short(k: u32) -> String { format!("v{k}") }
+fn lit_const_a(k: u32) -> String { format!("constant string of version {k} / ") }
+fn lit_const_b() -> String { "the quick brown fox jumps over the lazy dog".into() }
+fn lit_f_a(k: u32) -> String { format!("f-string of version {k} starts here <") }
+fn lit_f_b() -> String { "> and has a long tail that is a literal piece too".into() }
+fn list_lit(k: u32) -> Vec<u32> { vec![3, 1, 4, 1, 5, 9, 2, 6, 5, 3, 5, k, 1000 + k] }
+fn list_const(k: u32) -> Vec<u32> { vec![2, 7, 1, 8, 2, 8, k] }
+/// what the data part of `main` adds up to
+/// (the List[Tk]-typed script constant's tracked element counts as script constant #n)
+fn data_value(k: u32) -> u32 {
+    let ss = format!("{}{}", lit_const_a(k), lit_const_b());
+    ssum_of(&lit_plain(k))
+        + ssum_of(&lit_short(k))
+        + ssum_of(&ss)
+        + ssum_of(&format!("{}{}{}", lit_f_a(k), ss, lit_f_b()))
+        + lsum_of(&list_lit(k))
+        + lsum_of(&list_const(k))
+}
+
 /// the value `main()` of that compilation is meant to return
-fn value_of(r: u32, k: u32, n: u32, uc: bool, uf: bool) -> u32 {
+fn value_of(r: u32, k: u32, n: u32, uc: bool, uf: bool, ud: bool) -> u32 {
     let mut v = 1000 * k;
     for c in 0..n {
         v += val_s(k, c);
+    }
+    if ud {
+        v += data_value(k) + val_s(k, n);
     }
     if uc {
         v += val_r(r);
@@ -94,14 +134,17 @@ impl Op {
             Op::Build(r) => format!("b:{r}"),
             Op::RegConst(r) => format!("rc:{r}"),
             Op::RegClos(r) => format!("rf:{r}"),
-            Op::Compile { r, k, n, uc, uf } => format!(
-                "c:{r}:{k}:{n}:{}:{}:{}",
+            Op::Compile { r, k, n, uc, uf, ud } => format!(
+                "c:{r}:{k}:{}:{}:{}:{}:{}",
+                *n + *ud as u32,
                 *uc as u8,
                 *uf as u8,
-                value_of(*r, *k, *n, *uc, *uf)
+                *ud as u8,
+                value_of(*r, *k, *n, *uc, *uf, *ud)
             ),
             Op::Get(k) => format!("g:{k}"),
             Op::CloneH(i) => format!("ch:{i}"),
+            Op::IntoFunc(i) => format!("if:{i}"),
             Op::Call(i) => format!("x:{i}"),
             Op::DropH(i, _) => format!("dh:{i}"),
             Op::DropP(k, _) => format!("dp:{k}"),
@@ -126,7 +169,9 @@ impl Op {
             ("b", 2) => Op::Build(n(1)?),
             ("rc", 2) => Op::RegConst(n(1)?),
             ("rf", 2) => Op::RegClos(n(1)?),
-            ("c", 6) | ("c", 7) => Op::Compile { r: n(1)?, k: n(2)?, n: n(3)?, uc: n(4)? == 1, uf: n(5)? == 1 },
+            ("c", 6) | ("c", 7) => Op::Compile { r: n(1)?, k: n(2)?, n: n(3)?, uc: n(4)? == 1, uf: n(5)? == 1, ud: false },
+            ("c", 8) => Op::Compile { r: n(1)?, k: n(2)?, n: n(3)?.checked_sub(n(6)?)?, uc: n(4)? == 1, uf: n(5)? == 1, ud: n(6)? == 1 },
+            ("if", 2) => Op::IntoFunc(n(1)? as usize),
             ("g", 2) => Op::Get(n(1)?),
             ("ch", 2) => Op::CloneH(n(1)? as usize),
             ("x", 2) => Op::Call(n(1)? as usize),
@@ -144,6 +189,7 @@ impl Op {
             Op::Compile { .. } => "compile",
             Op::Get(_) => "get",
             Op::CloneH(_) => "clone",
+            Op::IntoFunc(_) => "into-func",
             Op::Call(_) => "call",
             Op::DropH(_, false) => "drop-handle",
             Op::DropH(_, true) => "drop-handle@thread",
@@ -170,6 +216,7 @@ struct Info {
     n: u32,
     uc: bool,
     uf: bool,
+    ud: bool,
     value: u32,
 }
 
@@ -186,6 +233,8 @@ struct Spec {
     compiled: BTreeMap<u32, Info>,
     pkgs: Vec<u32>,
     hs: Vec<u32>,
+    /// parallel to `hs`: the handle has been turned into a closure (cannot be cloned or converted again)
+    is_fn: Vec<bool>,
 }
 
 impl Spec {
@@ -201,7 +250,8 @@ impl Spec {
                     && (!uf || self.has_clos.contains(r))
             }
             Op::Get(k) | Op::DropP(k, _) => self.pkgs.contains(k),
-            Op::CloneH(i) | Op::Call(i) | Op::DropH(i, _) => *i < self.hs.len(),
+            Op::Call(i) | Op::DropH(i, _) => *i < self.hs.len(),
+            Op::CloneH(i) | Op::IntoFunc(i) => *i < self.hs.len() && !self.is_fn[*i],
             Op::DropR(r, _) => self.rts.contains(r),
         }
     }
@@ -219,15 +269,23 @@ impl Spec {
                 self.has_clos.insert(*r);
                 self.clos_ever.insert(*r);
             }
-            Op::Compile { r, k, n, uc, uf } => {
-                self.compiled.insert(*k, Info { r: *r, n: *n, uc: *uc, uf: *uf, value: value_of(*r, *k, *n, *uc, *uf) });
+            Op::Compile { r, k, n, uc, uf, ud } => {
+                self.compiled.insert(*k, Info { r: *r, n: *n, uc: *uc, uf: *uf, ud: *ud, value: value_of(*r, *k, *n, *uc, *uf, *ud) });
                 self.pkgs.push(*k);
             }
-            Op::Get(k) => self.hs.push(*k),
-            Op::CloneH(i) => self.hs.push(self.hs[*i]),
+            Op::Get(k) => {
+                self.hs.push(*k);
+                self.is_fn.push(false);
+            }
+            Op::CloneH(i) => {
+                self.hs.push(self.hs[*i]);
+                self.is_fn.push(false);
+            }
+            Op::IntoFunc(i) => self.is_fn[*i] = true,
             Op::Call(_) => {}
             Op::DropH(i, _) => {
                 self.hs.remove(*i);
+                self.is_fn.remove(*i);
             }
             Op::DropP(k, _) => {
                 let i = self.pkgs.iter().position(|x| x == k).unwrap();
@@ -261,7 +319,8 @@ impl Spec {
             out.push((tag_f(*r), format!("F{r}"), needed as i64, may as i64));
         }
         for (k, i) in &self.compiled {
-            for c in 0..i.n {
+            // with `ud`, constant #n is the tracked element of the List-typed script constant
+            for c in 0..i.n + i.ud as u32 {
                 let a = self.referred(*k) as i64;
                 out.push((tag_s(*k, c), format!("S{k}.{c}"), a, a));
             }
@@ -293,21 +352,54 @@ fn drop_maybe_on_thread<T: 'static>(x: T, thread: bool) {
     }
 }
 
+/// a handle, or the closure `into_func` made of it
+enum H {
+    Handle(Handle),
+    Func(Box<dyn Fn() -> u32>),
+    /// transient (while `into_func` consumes the handle)
+    Gone,
+}
+impl H {
+    fn call(&self) -> u32 {
+        match self {
+            H::Handle(h) => h.call(),
+            H::Func(f) => f(),
+            H::Gone => unreachable!(),
+        }
+    }
+}
+
 #[derive(Default)]
 struct World {
     rts: BTreeMap<u32, Runtime<NoCtx>>,
     pkgs: Vec<(u32, Package<NoCtx>)>,
-    hs: Vec<(u32, Handle)>,
+    hs: Vec<(u32, H)>,
 }
 
-fn script(k: u32, n: u32, uc: bool, uf: bool) -> String {
+fn roto_list(l: &[u32]) -> String {
+    format!("[{}]", l.iter().map(|x| x.to_string()).collect::<Vec<_>>().join(", "))
+}
+
+fn script(k: u32, n: u32, uc: bool, uf: bool, ud: bool) -> String {
     let mut s = String::new();
     for c in 0..n {
         s.push_str(&format!("const SC{c}: Tk = mk({}, {});\n", tag_s(k, c), val_s(k, c)));
     }
+    if ud {
+        // script constants of List and String type (the List one holds a tracked element)
+        s.push_str(&format!("const SLT: List[Tk] = [mk({}, {})];\n", tag_s(k, n), val_s(k, n)));
+        s.push_str(&format!("const SL: List[u32] = {};\n", roto_list(&list_const(k))));
+        s.push_str(&format!("const SS: String = \"{}\" + \"{}\";\n", lit_const_a(k), lit_const_b()));
+    }
     s.push_str(&format!("fn main() -> u32 {{\n    {}", 1000 * k));
     for c in 0..n {
         s.push_str(&format!(" + val(SC{c})"));
+    }
+    if ud {
+        s.push_str(&format!("\n    + ssum(\"{}\") + ssum(\"{}\") + ssum(SS)", lit_plain(k), lit_short(k)));
+        s.push_str(&format!("\n    + ssum(f\"{}{{SS}}{}\")", lit_f_a(k), lit_f_b()));
+        s.push_str(&format!("\n    + lsum({}) + lsum(SL)", roto_list(&list_lit(k))));
+        s.push_str("\n    + (match SLT.get(0) { Some(t) => val(t), None => 0, })");
     }
     if uc {
         s.push_str(" + val(REGC)");
@@ -327,6 +419,8 @@ impl World {
                     #[clone] type Tk = Val<Tk>;
                     fn mk(tag: u64, v: u32) -> Val<Tk> { Val(Tk::new(tag, v)) }
                     fn val(t: Val<Tk>) -> u32 { t.0.val }
+                    fn ssum(s: RotoString) -> u32 { ssum_of(&s) }
+                    fn lsum(l: List<u32>) -> u32 { lsum_of(&l.to_vec()) }
                 })
                 .map_err(|e| format!("{e}"))?;
                 self.rts.insert(*r, rt);
@@ -346,8 +440,8 @@ impl World {
                     })
                     .map_err(|e| format!("{e}"))?;
             }
-            Op::Compile { r, k, n, uc, uf } => {
-                let src = script(*k, *n, *uc, *uf);
+            Op::Compile { r, k, n, uc, uf, ud } => {
+                let src = script(*k, *n, *uc, *uf, *ud);
                 let pkg = FileTree::test_file(&format!("v{k}.roto"), &src, 0)
                     .compile(&self.rts[r])
                     .map_err(|e| format!("compile v{k}: {e}"))?;
@@ -356,11 +450,18 @@ impl World {
             Op::Get(k) => {
                 let p = self.pkgs.iter_mut().find(|(x, _)| x == k).unwrap();
                 let f: Handle = p.1.get_function("main").map_err(|e| format!("{e}"))?;
-                self.hs.push((*k, f));
+                self.hs.push((*k, H::Handle(f)));
             }
             Op::CloneH(i) => {
-                let h = (self.hs[*i].0, self.hs[*i].1.clone());
+                let H::Handle(h) = &self.hs[*i].1 else { return Err("clone of a closure".into()) };
+                let h = (self.hs[*i].0, H::Handle(h.clone()));
                 self.hs.push(h);
+            }
+            Op::IntoFunc(i) => {
+                let H::Handle(h) = std::mem::replace(&mut self.hs[*i].1, H::Gone) else {
+                    return Err("into_func of a closure".into());
+                };
+                self.hs[*i].1 = H::Func(Box::new(h.into_func()));
             }
             Op::Call(i) => {
                 let _ = self.hs[*i].1.call();
@@ -381,6 +482,26 @@ impl World {
         }
         Ok(())
     }
+}
+
+// ---------------------------------------------------------------- scribbling over freed memory
+
+/// Allocate and free blocks of every small size class, filled with a byte
+/// pattern: whatever the last step freed (string bytes, constants, boxed
+/// closures) is reused and overwritten, so a read through a dangling pointer
+/// sees other bytes — deterministically, not only under valgrind.
+fn scribble(round: usize) {
+    let fill = 0xA5u8 ^ (round as u8).wrapping_mul(29);
+    let mut keep: Vec<Vec<u8>> = Vec::with_capacity(1024);
+    for size in (1..=30).map(|i| i * 8).chain([256, 320, 384, 448, 512, 768, 1024]) {
+        for _ in 0..12 {
+            let mut v = Vec::<u8>::with_capacity(size);
+            v.resize(size, fill);
+            keep.push(v);
+        }
+    }
+    std::hint::black_box(&keep);
+    drop(keep);
 }
 
 // ---------------------------------------------------------------- one history
@@ -431,15 +552,17 @@ fn run_history(h: &[Op], drv: Option<&mut Driver>, progress: bool) -> Outcome {
             }
             spec.apply(op);
         }
+        scribble(step);
         // ---- observe the real state
         let mut calls = vec![];
         for (i, (k, f)) in w.hs.iter().enumerate() {
             let got = f.call();
             let want = spec.compiled[k].value;
+            let i_kind = if spec.is_fn[i] { "closure (into_func)" } else { "handle" };
             calls.push(format!("ok:{got}"));
             if got != want {
                 out.violations.push((
-                    format!("handle #{i} of version {k} returned {got}, it returned {want} when it was created"),
+                    format!("{i_kind} #{i} of version {k} returned {got}, it returned {want} when it was created"),
                     format!("call-result-changed after {}", op.kind().trim_end_matches("@thread")),
                     step,
                 ));
@@ -538,13 +661,16 @@ fn all_ops(spec: &Spec, max_rt: u32, max_k: u32, exhaustive: bool) -> Vec<Op> {
     if next_k <= max_k {
         for r in 0..max_rt {
             if exhaustive {
+                // the script uses everything there is: constant, closure and every kind of code-owned data
                 let (uc, uf) = (spec.has_const.contains(&r), spec.has_clos.contains(&r));
-                v.push(Op::Compile { r, k: next_k, n: 1, uc, uf });
+                v.push(Op::Compile { r, k: next_k, n: 1, uc, uf, ud: true });
             } else {
                 for n in 0..3 {
                     for uc in [false, true] {
                         for uf in [false, true] {
-                            v.push(Op::Compile { r, k: next_k, n, uc, uf });
+                            for ud in [false, true] {
+                                v.push(Op::Compile { r, k: next_k, n, uc, uf, ud });
+                            }
                         }
                     }
                 }
@@ -558,11 +684,12 @@ fn all_ops(spec: &Spec, max_rt: u32, max_k: u32, exhaustive: bool) -> Vec<Op> {
     let mut seen = BTreeSet::new();
     for (i, k) in spec.hs.iter().enumerate() {
         // clones of one handle are indistinguishable objects: in the exhaustive
-        // enumeration one representative per version
-        if exhaustive && !seen.insert(*k) {
+        // enumeration one representative per (version, handle / closure)
+        if exhaustive && !seen.insert((*k, spec.is_fn[i])) {
             continue;
         }
         v.push(Op::CloneH(i));
+        v.push(Op::IntoFunc(i));
         v.push(Op::DropH(i, false));
         if !exhaustive {
             v.push(Op::Call(i));
@@ -668,6 +795,114 @@ fn gen_exhaustive(depth: usize) -> Vec<Vec<Op>> {
     out
 }
 
+/// Class representatives that run first (before the enumeration): for every way an
+/// object can keep a module alive — package, handle, clone, closure made by
+/// `into_func` — the history in which it is the LAST owner while a script that
+/// uses every kind of referenced resource is called, with every order of
+/// dropping the others; plus hot reload (recompile on the same runtime after
+/// registering more) and two runtimes.
+fn gen_boundary() -> Vec<Vec<Op>> {
+    let full = |k: u32| Op::Compile { r: 0, k, n: 2, uc: true, uf: true, ud: true };
+    let pre = vec![Op::Build(0), Op::RegConst(0), Op::RegClos(0)];
+    let mut out: Vec<Vec<Op>> = vec![];
+    // the survivor: 0 = plain handle, 1 = clone (original dropped), 2 = closure, 3 = closure of a clone
+    for survivor in 0..4 {
+        for order in 0..3 {
+            for thread in [false, true] {
+                let mut h = pre.clone();
+                h.push(full(1));
+                h.push(Op::Get(1));
+                match survivor {
+                    0 => {}
+                    1 => {
+                        h.push(Op::CloneH(0));
+                        h.push(Op::DropH(0, thread));
+                    }
+                    2 => h.push(Op::IntoFunc(0)),
+                    _ => {
+                        h.push(Op::CloneH(0));
+                        h.push(Op::IntoFunc(1));
+                        h.push(Op::DropH(0, thread));
+                    }
+                }
+                match order {
+                    0 => {
+                        h.push(Op::DropP(1, thread));
+                        h.push(Op::DropR(0, thread));
+                    }
+                    1 => {
+                        h.push(Op::DropR(0, thread));
+                        h.push(Op::DropP(1, thread));
+                    }
+                    _ => {
+                        // hot reload in between: a second version is compiled and dropped again
+                        h.push(full(2));
+                        h.push(Op::Get(2));
+                        h.push(Op::DropP(1, thread));
+                        h.push(Op::DropH(1, thread));
+                        h.push(Op::DropP(2, thread));
+                        h.push(Op::DropR(0, thread));
+                    }
+                }
+                h.push(Op::Call(0));
+                h.push(Op::DropH(0, thread));
+                out.push(h);
+            }
+        }
+    }
+    // each kind of resource on its own (so that a result names the kind), handle and closure as survivor
+    for (n, uc, uf, ud) in [(0, false, false, true), (2, false, false, false), (0, true, false, false), (0, false, true, false), (0, false, false, false)] {
+        for closure in [false, true] {
+            let mut h = pre.clone();
+            h.push(Op::Compile { r: 0, k: 1, n, uc, uf, ud });
+            h.push(Op::Get(1));
+            if closure {
+                h.push(Op::IntoFunc(0));
+            }
+            h.extend([Op::DropP(1, false), Op::DropR(0, false), Op::Call(0), Op::DropH(0, false)]);
+            out.push(h);
+        }
+    }
+    // registering after a compilation, then compiling again on the same runtime (hot reload with a grown runtime)
+    out.push(vec![
+        Op::Build(0),
+        Op::Compile { r: 0, k: 1, n: 1, uc: false, uf: false, ud: true },
+        Op::Get(1),
+        Op::RegConst(0),
+        Op::RegClos(0),
+        full(2),
+        Op::Get(2),
+        Op::IntoFunc(1),
+        Op::DropR(0, false),
+        Op::DropP(2, false),
+        Op::DropP(1, false),
+        Op::Call(1),
+        Op::DropH(1, false),
+        Op::DropH(0, false),
+    ]);
+    // two runtimes: dropping one never touches the other's packages
+    out.push(vec![
+        Op::Build(0),
+        Op::Build(1),
+        Op::RegConst(0),
+        Op::RegClos(0),
+        Op::RegConst(1),
+        Op::RegClos(1),
+        full(1),
+        Op::Compile { r: 1, k: 2, n: 1, uc: true, uf: true, ud: true },
+        Op::Get(1),
+        Op::Get(2),
+        Op::IntoFunc(1),
+        Op::DropR(0, false),
+        Op::DropP(1, false),
+        Op::DropP(2, true),
+        Op::DropR(1, true),
+        Op::DropH(0, false),
+        Op::DropH(0, true),
+    ]);
+    out
+}
+
 // ---------------------------------------------------------------- driver of the run
 
 fn record(rep: &mut Report, h: &[Op], o: &Outcome, origin: serde_json::Value, idx: u64) {
@@ -705,6 +940,17 @@ fn main() {
             // crash budget: a tree on which (almost) every history dies must not
             // cost one process start per history
             let crashes = std::cell::Cell::new(0u32);
+            // class representatives first
+            let n_bnd = gen_boundary().len() as u64;
+            run_batches(&["bnd"], n_bnd, n_bnd, t, &mut rep, |rep: &mut Report, idx: u64, how: &Ended| {
+                crashes.set(crashes.get() + 1);
+                let h = &gen_boundary()[idx as usize];
+                rep.violation(
+                    "the process died (use-after-free / double free) while running this history (and then dropping what it left alive)",
+                    &format!("crash {}", crash_key(h)),
+                    json!({"history": hist_text(h), "ended": format!("{how:?}"), "origin": {"boundary": idx}}),
+                );
+            });
             let mut off = 0u64;
             while off < n_exh && crashes.get() < 6 {
                 let chunk = 400.min(n_exh - off);
@@ -739,12 +985,23 @@ fn main() {
             if crashes.get() >= 6 {
                 rep.notes.push(format!("run cut short after {} crashed histories", crashes.get()));
             }
-            rep.notes.push(format!("exhaustive: all {n_exh} histories (runtime with constant+closure) ++ suffix of ≤ {depth} ops ending in a drop; random: {n_rand} histories"));
+            rep.notes.push(format!("boundary: {n_bnd} class representatives (last owner = handle / clone / into_func closure × drop orders × thread) run first; exhaustive: all {n_exh} histories (runtime with constant+closure) ++ suffix of ≤ {depth} ops ending in a drop; random: {n_rand} histories"));
             if thorough {
                 valgrind_subset(&mut rep, seed);
             }
         }
         Some("worker") => match args[2].as_str() {
+            "bnd" => {
+                let from: usize = args[3].parse().unwrap();
+                let n: usize = args[4].parse().unwrap();
+                let all = gen_boundary();
+                let mut drv = Driver::spawn().expect("lean driver");
+                for idx in from..(from + n).min(all.len()) {
+                    println!("START {idx}");
+                    let o = run_history(&all[idx], Some(&mut drv), false);
+                    record(&mut rep, &all[idx], &o, json!({"boundary": idx}), idx as u64);
+                }
+            }
             "exh" => {
                 let depth: usize = args[3].parse().unwrap();
                 let off: usize = args[4].parse().unwrap();
@@ -837,6 +1094,9 @@ fn crash_key(h: &[Op]) -> String {
         .collect();
     k.sort();
     k.dedup();
+    if h.iter().any(|o| matches!(o, Op::IntoFunc(_))) {
+        k.insert(0, "into-func");
+    }
     format!("in a history with {}", k.join(","))
 }
 
